@@ -40,8 +40,46 @@ pub fn run(cx: &mut Ctx) {
             let nonce: [u8; 24] = content(&mut rng, nclass, 24).try_into().unwrap();
             let (spk, ssk) = na::box_seed_keypair(&rng.arr());
             let (rpk, rsk) = na::box_seed_keypair(&rng.arr());
-            let msg = content(&mut rng, if len % 7 == 0 { "zeros" } else { "random" }, len);
+            let plain_msg = content(&mut rng, if len % 7 == 0 { "zeros" } else { "random" }, len);
             cx.key(&format!("len={} ks={}", len, ks));
+            // message variants: the ordinary one, plus (for whole-block lengths) messages chosen by someone who knows
+            // key and nonce so that the Poly1305 accumulator over the ciphertext ends on p .. p+4 (= 0..4 mod p)
+            let mut variants: Vec<(Vec<u8>, Option<Family>, &str)> = vec![(plain_msg, None, "ordinary")];
+            if len >= 16 && len % 16 == 0 && (len <= 64 || len % 64 == 0) {
+                let k_box = na::box_beforenm(&rpk, &ssk).expect("beforenm");
+                for (fam, k_) in [(Family::Secretbox, key), (Family::Box, k_box)] {
+                    let ks_ = na::stream_xsalsa20(32 + len, &nonce, &k_);
+                    for v in 0..5u64 {
+                        let mut crafted = None;
+                        for _try in 0..24 {
+                            let prefix = rng.bytes(len - 16);
+                            if let Some(last) = super::polyedge::solve_last_block(&ks_[..16], &prefix, v) {
+                                let mut ct = prefix;
+                                ct.extend_from_slice(&last);
+                                crafted = Some(ct);
+                                break;
+                            }
+                        }
+                        let Some(ct) = crafted else { continue };
+                        // self-check of the construction against the independent evaluator
+                        if super::polyedge::accumulator(&ks_[..16], &ct) != super::polyedge::Fe::small(v) {
+                            cx.violation("HARNESS|C01|poly1305_edge_construction_failed", json!({"v":v,"len":len}));
+                            continue;
+                        }
+                        let m: Vec<u8> = ct.iter().zip(ks_[32..].iter()).map(|(a, b)| a ^ b).collect();
+                        variants.push((m, Some(fam), "poly1305_accumulator_on_p+v"));
+                        cx.cover("poly1305_edge_messages", &format!("{:?}|v={}", fam, v));
+                    }
+                }
+            }
+            for (msg, only_family, variant) in variants {
+            let fam_ok = |f: Family| -> bool {
+                match only_family {
+                    None => true,
+                    Some(Family::Secretbox) => f == Family::Secretbox,
+                    Some(_) => f == Family::Box || f == Family::Afternm,
+                }
+            };
             cx.cover("len_mod16", &format!("{}", len % 16));
             cx.cover("len_mod64", &format!("{}", len % 64));
             cx.cover("key_class", kclass);
@@ -52,8 +90,8 @@ pub fn run(cx: &mut Ctx) {
 
             let want_sb = na::secretbox_easy(&msg, &nonce, &key);
             let want_bx = na::box_easy(&msg, &nonce, &rpk, &ssk).expect("libsodium box_easy");
-            let base = json!({"len":len,"msg":hx(&msg[..len.min(48)]),"nonce":hx(&nonce),"key":hx(&key),"spk":hx(&spk),"ssk":hx(&ssk),"rpk":hx(&rpk),"rsk":hx(&rsk)});
-            if len % 4 == 1 {
+            let base = json!({"len":len,"variant":variant,"msg":hx(&msg[..len.min(48)]),"nonce":hx(&nonce),"key":hx(&key),"spk":hx(&spk),"ssk":hx(&ssk),"rpk":hx(&rpk),"rsk":hx(&rsk)});
+            if len % 4 == 1 || variant != "ordinary" {
                 cx.io("secretbox", json!({"msg":hx(&msg),"nonce":hx(&nonce),"key":hx(&key),"ct":hx(&want_sb)}));
                 if len % 8 == 1 {
                     cx.io("box", json!({"msg":hx(&msg),"nonce":hx(&nonce),"pk":hx(&rpk),"sk":hx(&ssk),"ct":hx(&want_bx)}));
@@ -62,7 +100,7 @@ pub fn run(cx: &mut Ctx) {
 
             // -------------------------------------------------------------- encryption forms
             let mut dryoc_seals: Vec<Vec<u8>> = Vec::new();
-            for e in &encs {
+            for e in encs.iter().filter(|e| fam_ok(e.family)) {
                 let p = Plain { nonce, key, pk: rpk, sk: ssk, msg: msg.clone() };
                 let case = || json!({"form":e.name,"case":base});
                 let sig = format!("C01|{}", e.name);
@@ -107,7 +145,7 @@ pub fn run(cx: &mut Ctx) {
             // -------------------------------------------------------------------- open forms
             let k_after = na::box_beforenm(&spk, &rsk).expect("beforenm");
             let seal_na = na::box_seal(&msg, &rpk);
-            for o in &opens {
+            for o in opens.iter().filter(|o| fam_ok(o.family)) {
                 let wires: Vec<(&str, Wire)> = match o.family {
                     Family::Secretbox => vec![("libsodium_ct", Wire { nonce, key, pk: [0; 32], sk: [0; 32], ct: want_sb.clone() })],
                     Family::Box => vec![("libsodium_ct", Wire { nonce, key: [0; 32], pk: spk, sk: rsk, ct: want_bx.clone() })],
@@ -137,6 +175,7 @@ pub fn run(cx: &mut Ctx) {
                     }
                 }
             }
+            } // message variants
         }
     }
 }
